@@ -35,6 +35,7 @@ use crypto_bigint::modular::{
     montgomery_reduction,
 };
 use crypto_bigint::zeroize::Zeroize;
+#[cfg(crypto_bigint_verif)]
 use crypto_bigint::verif_hooks as hooks;
 use crypto_bigint::{
     BoxedUint, Concat, Integer, Limb, Monty, MontyMultiplier, NonZero, Odd, Split, Square, SquareAssign, Uint,
@@ -774,6 +775,7 @@ fn limbs_hex(l: &[Limb]) -> String {
     words_hex(&l.iter().map(|x| x.0).collect::<Vec<_>>())
 }
 
+#[cfg(crypto_bigint_verif)]
 fn hook_amm(n: usize, x: &str, y: Option<&str>, m: &str, k: &str) -> Option<String> {
     if n == 0 || n > 128 {
         return Some("unsupported-width".to_string());
@@ -787,6 +789,7 @@ fn hook_amm(n: usize, x: &str, y: Option<&str>, m: &str, k: &str) -> Option<Stri
     Some(limbs_hex(&z))
 }
 
+#[cfg(crypto_bigint_verif)]
 fn hook_redc_inner(n: usize, lo: &str, hi: &str, m: &str, k: &str) -> Option<String> {
     if n == 0 || n > 128 {
         return Some("unsupported-width".to_string());
@@ -796,10 +799,12 @@ fn hook_redc_inner(n: usize, lo: &str, hi: &str, m: &str, k: &str) -> Option<Str
     Some(format!("{} {}", limbs_hex(&upper), lhex(meta)))
 }
 
+#[cfg(crypto_bigint_verif)]
 fn fields_line_fixed<const N: usize>(p: &MontyParams<N>) -> String {
     let (one, r2, r3, k, lz) = p.verif_fields();
     format!("mod={} one={} r2={} r3={} k={} lz={}", uhex(p.modulus().as_ref()), uhex(&one), uhex(&r2), uhex(&r3), lhex(k), lz)
 }
+#[cfg(crypto_bigint_verif)]
 fn fields_line_boxed(p: &BoxedMontyParams) -> String {
     let (one, r2, r3, k, lz) = p.verif_fields();
     format!("mod={} one={} r2={} r3={} k={} lz={}", bhex(p.modulus().as_ref()), bhex(one), bhex(r2), bhex(r3), lhex(k), lz)
@@ -907,4 +912,25 @@ pub fn dispatch(op: &str, a: &[&str]) -> Option<String> {
         }
         _ => None,
     }
+}
+
+// ---- the same entry points when the crate is built WITHOUT `--cfg crypto_bigint_verif` (fallback build of the runner when the
+// hook forwarders of /repo no longer compile, e.g. after a refactor of an internal signature): hook operations answer
+// `hook-unavailable` and are skipped by the runner; the public operations still run.
+#[cfg(not(crypto_bigint_verif))]
+fn hook_amm(_n: usize, _x: &str, _y: Option<&str>, _m: &str, _k: &str) -> Option<String> {
+    Some(crate::util::HOOK_UNAVAILABLE.to_string())
+}
+#[cfg(not(crypto_bigint_verif))]
+fn hook_redc_inner(_n: usize, _lo: &str, _hi: &str, _m: &str, _k: &str) -> Option<String> {
+    Some(crate::util::HOOK_UNAVAILABLE.to_string())
+}
+// without the field accessors the parameters are read from the derived `Debug` text (the hook build checks that both agree)
+#[cfg(not(crypto_bigint_verif))]
+fn fields_line_fixed<const N: usize>(p: &MontyParams<N>) -> String {
+    params_line(&format!("{p:?}")).unwrap_or_else(|| "debug-text-unparsable".to_string())
+}
+#[cfg(not(crypto_bigint_verif))]
+fn fields_line_boxed(p: &BoxedMontyParams) -> String {
+    params_line(&format!("{p:?}")).unwrap_or_else(|| "debug-text-unparsable".to_string())
 }
